@@ -53,3 +53,8 @@ for _fam in ("master-page", "page-layout", "font-face"):
 OBLIGATIONS.append(Obl(name="merge_marker", module="h_styles", func="merge_marker", shadow=True, timeout=400, replay="r_h_styles:merge_marker", weight=60,
                        bounds="merge (once or twice - symbolic) of a document holding a draw:marker into one with 0..3 default styles and with or without a marker of the same draw:name",
                        encodes=_MENC, stubs=_STUB))
+for _k1 in range(3):
+    OBLIGATIONS.append(Obl(name=f"merge_cross_{_k1}", module="h_styles", func="merge_cross", shadow=True, timeout=300, env={"VERIF_FAMILY": "paragraph", "VERIF_K1": str(_k1)},
+                           extra={"family": "paragraph", "k1": _k1}, replay="r_h_styles:merge_cross", weight=17,
+                           bounds=f"paragraph style (name {_k1} of ['a','b','a b']) in office:styles or office:automatic-styles of dest's styles.xml (symbolic), the other document's (name k2, symbolic index) in the other container",
+                           encodes=_MENC, stubs=_STUB))
